@@ -26,7 +26,9 @@ RULE = ("seeded histories (quick 500 x ~45 steps, thorough 7000 x ~50) over a po
         "with every result: + - * / // between pool members and with plain numbers on either side, == and <, "
         "GetValue(s)(unit) incl. the own unit (returns the internal container), CreateCopy(), "
         "CreateCopy(unit[, category]), copy/deepcopy/Copy, pickle round trips, IsValid, str/repr/GetFormatted, "
-        "ChangingIndex (number / Scalar, both unit modes, negative and out-of-range indices), IndexAsScalar, powers of "
+        "ChangingIndex (number / Scalar, both unit modes, negative and out-of-range indices), IndexAsScalar, value "
+        "objects built with CreateWithQuantity on hand-made composing maps holding two units of one quantity type "
+        "(both orders) with + and - applied to them on the LEFT (succeeding and failing) and * / on either side, powers of "
         "one amount in two units combined (exponent-aware unit matching on whole containers), "
         "plus a malformed stream (class mixes, foreign units, bad dimensions, zero divisors); distinct = "
         "distinct history; non-trivial = some step involved an object that shares a container, a FractionValue "
@@ -185,6 +187,18 @@ def _run_op(db, pool, op):
                 r = FixedArray(op["dim"], _container(op["kind"], op["xs"]), op["u"], op["c"])
             elif k == "mkFScalar":
                 r = FractionScalar(FractionValue(op["n"], (op["num"], op["den"])), op["u"], op["c"])
+            elif k == "mkDerived":
+                from collections import OrderedDict
+
+                from barril.units import Quantity
+
+                q = Quantity.CreateDerived(OrderedDict((c, [u, e]) for c, u, e in op["items"]))
+                if op["cls"] == "scalar":
+                    r = Scalar.CreateWithQuantity(q, op["v"])
+                elif op["cls"] == "array":
+                    r = Array.CreateWithQuantity(q, _container(op["kind"], op["xs"]))
+                else:
+                    r = FixedArray.CreateWithQuantity(q, _container(op["kind"], op["xs"]))
             elif k == "arith":
                 r = BINOPS[op["f"]](_operand(pool, op["a"]), _operand(pool, op["b"]))
             elif k == "eq":
@@ -445,7 +459,9 @@ class Gen:
         if r < 0.82:
             return dict(k="mkFScalar", n=float(rng.choice([0, 1, 5, -2, 12])), num=rng.choice([0, 1, 3, 5, -1]),
                         den=rng.choice([2, 4, 8, 3, 16]), u=u, c=c)
-        if r < 0.88:
+        if r < 0.86:
+            return self.mk_derived_op(self.two_unit_items(reverse=rng.random() < 0.5, unify=rng.random() < 0.2))
+        if r < 0.9:
             return dict(k="mkEmptyScalar", v=rng.choice(VALUES))
         if r < 0.94:
             return dict(k="mkCaptionScalar", v=rng.choice(VALUES), u="<unknown>", cap=rng.choice(["cap", "other cap"]))
@@ -459,8 +475,13 @@ class Gen:
             return dict(k="mkFixed", dim=rng.choice([0, 1, 3]), kind=rng.choice(KINDS), xs=self.values(2), u="m", c="length")
         if r < 0.2:
             return dict(k="mkScalar", v=1.0, u=rng.choice(["zzz", "s", "m"]), c=rng.choice(["length", "no such category"]))
-        if r < 0.26:
+        if r < 0.23:
             return dict(k="mkFScalar", n=1.0, num=1, den=0, u="in", c="length")
+        if r < 0.26:
+            return dict(k="mkDerived", cls=rng.choice(["scalar", "array", "fixed"]),
+                        items=rng.choice([[["length", "m", 1], ["depth", "s", 1]], [["no such category", "m", 1], ["depth", "cm", 2]],
+                                          [["length", "m", 1]], [["length", "cm", 2]], []]),
+                        v=1.0, kind=rng.choice(KINDS), xs=self.values(rng.choice([1, 2])))
         if r < 0.45:       # class mixes (a FractionScalar only with another one or with a number: Python's
             # reflected-operator fallback would otherwise run Scalar/Array code on a FractionScalar)
             i, j = rng.randrange(n), rng.randrange(n)
@@ -572,6 +593,71 @@ class Gen:
             return dict(k="indexAsScalar", i=i, idx=rng.choice(list(range(-d, d)) + [d]))
         return self.gen_create()
 
+    def two_unit_items(self, reverse=False, unify=False):
+        """a composing map with two categories of ONE quantity type in two DIFFERENT units (what Multiply /
+        Divide never produce: they unify the units), optionally with a third factor of another type"""
+        rng = self.rng
+        multi = sorted(qt for qt, (us, cs) in self.types.items() if len(us) >= 2 and len(cs) >= 2)
+        qt = rng.choice(multi + ["length"] * 3)
+        us, cs = self.types[qt]
+        u1, u2 = rng.sample(us, 2)
+        c1, c2 = rng.sample(cs, 2)
+        e1, e2 = rng.choice([(1, 1), (1, 1), (1, 1), (2, 1), (1, -1), (1, 2)])
+        items = [[c1, u1, e1], [c2, u1 if unify else u2, e2]]
+        if rng.random() < 0.25:
+            items.append(["time", rng.choice(["s", "min"]), rng.choice([-1, 1])])
+        if reverse:
+            items[0], items[1] = items[1], items[0]
+        return items
+
+    def mk_derived_op(self, items, cls=None, n=None, kind=None):
+        rng = self.rng
+        cls = cls or rng.choice(["scalar", "array", "array", "fixed"])
+        n = n if n is not None else rng.choice([2, 3])
+        return dict(k="mkDerived", cls=cls, items=[list(t) for t in items], v=rng.choice(NZ_VALUES),
+                    kind=kind or rng.choice(KINDS), xs=self.values(n, nz=True) if cls != "scalar" else [])
+
+    def pattern_two_units(self):
+        """value objects on hand-made composing maps holding two units of one quantity type, then + and - with
+        them on the LEFT: with the same map in the other order (succeeds: the matching rewrites the COPIED
+        `[unit, exp]` lists of the left operand), with another dimension (fails: InvalidOperationError), and
+        * / with them on either side"""
+        rng = self.rng
+        items = self.two_unit_items()
+        n0 = len(self.pool)
+        op = self.mk_derived_op(items)
+        self.push(op)
+        if len(self.pool) == n0:
+            return
+        d = n0
+        cls, n, kind = op["cls"], len(op["xs"]), op["kind"]
+        # same dimension: the same factors in the other order / with the units already unified
+        partner = [list(t) for t in items]
+        r = rng.random()
+        if r < 0.4:
+            partner[0], partner[1] = partner[1], partner[0]
+        elif r < 0.7:
+            partner[1][1] = partner[0][1]
+        self.push(self.mk_derived_op(partner, cls=cls, n=n, kind=rng.choice([kind, rng.choice(KINDS)])))
+        p = len(self.pool) - 1 if len(self.pool) == n0 + 2 else None
+        # another dimension, same class and length
+        u, c = self.unit_cat()
+        if cls == "scalar":
+            self.push(dict(k="mkScalar", v=rng.choice(NZ_VALUES), u=u, c=c))
+        else:
+            self.push(dict(k="mkArray", kind=rng.choice(KINDS), xs=self.values(n, nz=True), u=u, c=c))
+        other = len(self.pool) - 1
+        for f in rng.sample(["add", "sub"], 2):
+            if p is not None:
+                self.push(self.no_floor_tie(dict(k="arith", f=f, a=dict(i=d), b=dict(i=p))))
+            self.push(dict(k="arith", f=f, a=dict(i=d), b=dict(i=other)))
+        if p is not None and rng.random() < 0.5:
+            self.push(self.no_floor_tie(dict(k="arith", f=rng.choice(["add", "sub"]), a=dict(i=p), b=dict(i=d))))
+        if not self.too_big(d, other):
+            a, b = (d, other) if rng.random() < 0.5 else (other, d)
+            self.push(dict(k="arith", f=rng.choice(["mul", "div"]), a=dict(i=a), b=dict(i=b)))
+        self.push(dict(k="eq", i=d, j=p if p is not None else d))
+
     def pattern_powers(self):
         """x**e and (the same amount in another unit)**e, then + - * / between the two: the unit matching of the
         arithmetic then converts a whole operand value with an exponent (the `ratio ** exp` path)"""
@@ -614,8 +700,11 @@ class Gen:
             for _ in range(steps):
                 if len(self.pool) >= MAX_POOL:
                     break
-                if self.rng.random() < 0.04:
+                x = self.rng.random()
+                if x < 0.04:
                     self.pattern_powers()
+                elif x < 0.07:
+                    self.pattern_two_units()
                 else:
                     self.push(self.gen_op())
         finally:
@@ -645,6 +734,8 @@ def _encode(op):
             o[key] = qstr(exact(v))
         elif key == "xs":
             o[key] = [qstr(exact(x)) for x in v]
+        elif key == "items":
+            o[key] = [[str(sym(c)), str(sym(u)), e] for c, u, e in v]
         else:
             o[key] = v
     return o
